@@ -142,42 +142,51 @@ func runC16(c *an.Ctx) {
 		})
 		if c.Check(walk != nil, "C16.c", "window-search-loop", "findTailHeight refines its estimate by a loop that steps the height up by one", find, nil, "", nil) {
 			nStep, nInit := 0, 0
-			for _, pe := range ff.PhiOperands(walk) {
-				if ft.Of(pe.Val) == "("+ft.Of(walk)+"+1)" {
-					nStep++
-					okDir := false
-					for _, gc := range invokesOf(ft, "GetByHeight", nil) {
-						if len(gc.Call.Args) != 2 || ft.Of(gc.Call.Args[1]) != ft.Of(walk) || !pe.Facts.Has(an.EQ(ft.Of(gc)+"#1", "nil")) {
-							continue
-						}
-						for _, f := range pe.Facts {
-							if f.Op == "LT" && f.Pos && stripUTC(f.A) == "Time("+ft.Of(gc)+"#0)" && strings.Contains(f.B, "Time(p3)") && strings.Contains(f.B, "-p0.Params.PruningWindow") {
-								okDir = true
-							}
+			stepUp := func(fs an.FactSet) {
+				nStep++
+				okDir := false
+				for _, gc := range invokesOf(ft, "GetByHeight", nil) {
+					if len(gc.Call.Args) != 2 || ft.Of(gc.Call.Args[1]) != ft.Of(walk) || !fs.Has(an.EQ(ft.Of(gc)+"#1", "nil")) {
+						continue
+					}
+					for _, f := range fs {
+						if f.Op == "LT" && f.Pos && stripUTC(f.A) == "Time("+ft.Of(gc)+"#0)" && strings.Contains(f.B, "Time(p3)") && strings.Contains(f.B, "-p0.Params.PruningWindow") {
+							okDir = true
 						}
 					}
-					c.Check(okDir, "C16.c", "walk-up-only-past-older-headers", "the tail estimate is stepped up only past a stored header whose time is before head.Time() − PruningWindow (a header inside the window stops the walk and is kept)", find, walk, "", pe.Facts)
-					continue
+				}
+				c.Check(okDir, "C16.c", "walk-up-only-past-older-headers", "the tail estimate is stepped up only past a stored header whose time is before head.Time() − PruningWindow (a header inside the window stops the walk and is kept)", find, walk, "", fs)
+			}
+			// the operands of the walk, through the merges of the loop body (`if !reached { h++ }` merges
+			// the stepped and the unchanged height in front of the back edge): a step up, the unchanged
+			// height, or an initial estimate
+			var leaves func(v ssa.Value, fs an.FactSet, depth int)
+			leaves = func(v ssa.Value, fs an.FactSet, depth int) {
+				if v == ssa.Value(walk) {
+					return // carried round the loop unchanged
+				}
+				if ft.Of(v) == "("+ft.Of(walk)+"+1)" {
+					stepUp(fs)
+					return
+				}
+				if ph, isPhi := v.(*ssa.Phi); isPhi && depth < 3 {
+					for _, ie := range ff.PhiOperands(ph) {
+						leaves(ie.Val, append(append(an.FactSet{}, fs...), ie.Facts...), depth+1)
+					}
+					return
 				}
 				// initial value: every way the estimate is computed stays ≤ head.Height()
-				var leaves func(v ssa.Value, fs an.FactSet, depth int)
-				leaves = func(v ssa.Value, fs an.FactSet, depth int) {
-					if ph, isPhi := v.(*ssa.Phi); isPhi && depth < 3 && ph != walk {
-						for _, ie := range ff.PhiOperands(ph) {
-							leaves(ie.Val, ie.Facts, depth+1)
-						}
-						return
-					}
-					nInit++
-					fs = append(append(an.FactSet{}, fs...), unsignedFacts(ft, v, 4)...)
-					okB := ff.ProveGEFacts(fs, an.Var("Height(p3)", true), ft.Affine(v), 0)
-					c.Check(okB, "C16.c", "estimate-within-chain:"+an.Stable(ft.Of(v)), "every estimate the window search starts from is proven ≤ head.Height() (header times may be spaced wider than the block time: halted chain)", find, walk, "estimate "+an.Stable(ft.Of(v)), fs)
-					// … and ≥ 1: an estimate of 0 is at or below every old tail, both walks are skipped and
-					// height 0 becomes the new tail (heights of real headers, old tail and head, are ≥ 1)
-					fs1 := append(append(an.FactSet{}, fs...), an.GE("Height(p2)", "1"), an.GE("Height(p3)", "1"))
-					okOne := ff.ProveGEFacts(fs1, ft.Affine(v), an.Const(1), 0)
-					c.Check(okOne, "C16.c", "search-estimate>=1:"+an.Stable(ft.Of(v)), "every estimate the window search starts from is proven ≥ 1 (1 ≤ Tail)", find, walk, "estimate "+an.Stable(ft.Of(v)), fs1)
-				}
+				nInit++
+				fs = append(append(an.FactSet{}, fs...), unsignedFacts(ft, v, 4)...)
+				okB := ff.ProveGEFacts(fs, an.Var("Height(p3)", true), ft.Affine(v), 0)
+				c.Check(okB, "C16.c", "estimate-within-chain:"+an.Stable(ft.Of(v)), "every estimate the window search starts from is proven ≤ head.Height() (header times may be spaced wider than the block time: halted chain)", find, walk, "estimate "+an.Stable(ft.Of(v)), fs)
+				// … and ≥ 1: an estimate of 0 is at or below every old tail, both walks are skipped and
+				// height 0 becomes the new tail (heights of real headers, old tail and head, are ≥ 1)
+				fs1 := append(append(an.FactSet{}, fs...), an.GE("Height(p2)", "1"), an.GE("Height(p3)", "1"))
+				okOne := ff.ProveGEFacts(fs1, ft.Affine(v), an.Const(1), 0)
+				c.Check(okOne, "C16.c", "search-estimate>=1:"+an.Stable(ft.Of(v)), "every estimate the window search starts from is proven ≥ 1 (1 ≤ Tail)", find, walk, "estimate "+an.Stable(ft.Of(v)), fs1)
+			}
+			for _, pe := range ff.PhiOperands(walk) {
 				leaves(pe.Val, pe.Facts, 0)
 			}
 			// the walk reads only heights the store already has: store.GetByHeight blocks on a height above
